@@ -297,6 +297,50 @@ func (ob *observer) one(hi int) {
 		ob.report("Go:Size", hi, "", "", fmt.Sprint(len(mod)), fmt.Sprint(m.Size()))
 	}
 
+	// iteration that is stopped early, and callbacks that fail at every key in turn: a representation
+	// made of several parts (merge, append chain, replace) must stop everywhere once it is told to, and
+	// must not lose an error of one part while it goes through another
+	e.nCall++
+	e.nObs++
+	calls := 0
+	m.Iter(func(string, value.Value) bool { calls++; return false })
+	if want := map[bool]int{true: 0, false: 1}[len(mod) == 0]; calls != want {
+		ob.report("Go:Iter-stopped", hi, "", "", fmt.Sprintf("%d callback(s) when the first one returns false", want), fmt.Sprint(calls))
+	}
+	r, err = e.call(e.gen("m.list().top(1).size()", "m"), m)
+	e.nObs++
+	if want := map[bool]int{true: 0, false: 1}[len(mod) == 0]; err != nil {
+		ob.report("list-stopped", hi, "", "", fmt.Sprint(want), "error: "+err.Error())
+	} else if i, ok := r.(value.Int); !ok || int(i) != want {
+		ob.report("list-stopped", hi, "", "", fmt.Sprint(want), describe(r))
+	}
+	if len(mod) <= 6 {
+		for _, k := range mod.keys() {
+			for _, src := range []string{"m.map((k,v)->if k=f then throw(\"stop\") else v)", "m.accept((k,v)->if k=f then throw(\"stop\") else true)"} {
+				r, err = e.call(e.gen(src, "m", "f"), m, value.String(k))
+				e.nObs++
+				if err == nil {
+					if rm, ok := r.(value.Map); ok {
+						// the result may be lazy: force it
+						_ = iterOf(rm)
+						err = func() (err error) {
+							defer func() {
+								if rec := recover(); rec != nil {
+									err = fmt.Errorf("%v", rec)
+								}
+							}()
+							_, err = e.call(e.gen("r.string()", "r"), rm)
+							return err
+						}()
+					}
+				}
+				if err == nil {
+					ob.report("failing-callback", hi, k, "", "an error (the callback fails at key "+quote(k)+")", describe(r)+" from "+strings.SplitN(src, "(", 2)[0])
+				}
+			}
+		}
+	}
+
 	// JSON export
 	ob.jsonExport(hi)
 
